@@ -101,7 +101,9 @@ func c19Pool(c *vrep.Ctx) {
 	if steps < 8 {
 		panic("c19_pool needs the backend instrumentation profile (channels, WaitGroup, go statements as modelled operations)")
 	}
-	c.R.Rule = fmt.Sprintf("controlled scheduler on the instrumented backend.ClassifyLicenses (channels, WaitGroup, Mutex, go statements are modelled operations): %d files (licensed, unreadable, header-only, unlicensed) x numTasks=%d x headers=%v; every interleaving of the dispatcher, the workers and the closer goroutine within %s bound %d; oracle: no deadlock, no panic (e.g. send on a closed channel), every thread exits, results multiset = the per-file Match results, one error per unreadable file, no happens-before race on the results slice", nfiles, tasks, headers, c.Param("policy", "preemption"), budget)
+	c.R.Rule = "controlled scheduler on the instrumented backend.ClassifyLicenses (channels, WaitGroup, Mutex, go statements are modelled operations): n files (licensed, unreadable, header-only, unlicensed) x numTasks x headers (configuration in bounds_completed); every interleaving of the dispatcher, the workers and the closer goroutine within the stated preemption bound; oracle: no deadlock, no panic (e.g. send on a closed channel), GetResults() at the moment the call returns and after all goroutines finished = the library's per-file Match results, one error per unreadable file, no happens-before race on the results slice; states = explored schedules, transitions = scheduling decisions"
+	c.Bound("headers", headers)
+	c.Assume("Match is one atomic step for the pool exploration; log output and file reads are real but deterministic")
 	c.Bound(c.Param("policy", "preemption")+"_bound", budget)
 	c.Bound("files", nfiles)
 	c.Bound("tasks", tasks)
